@@ -61,6 +61,8 @@ Lemma pre_resume_stage s id i : h_pre (handle_resume_stage s id i) = None.
 Proof. unfold handle_resume_stage. break_match; reflexivity. Qed.
 Lemma pre_restart_stage s id i : h_pre (handle_restart_stage s id i) = None.
 Proof. unfold handle_restart_stage. break_match; reflexivity. Qed.
+Lemma pre_continue_parent s id i o k : h_pre (handle_continue_parent s id i o k) = None.
+Proof. unfold handle_continue_parent. break_match; reflexivity. Qed.
 
 (* RunTask executes the task only if the cancel flag is off, the task is RUNNING (run_task_guard) and the
    workflow is not complete *)
@@ -86,7 +88,7 @@ Proof.
   unfold handle. destruct (q_msg r) eqn:E;
     rewrite ?pre_start_workflow, ?pre_complete_workflow, ?pre_cancel_workflow, ?pre_start_stage, ?pre_complete_stage,
             ?pre_skip_stage, ?pre_cancel_stage, ?pre_start_task, ?pre_complete_task, ?pre_signal, ?pre_jump,
-            ?pre_pause_task, ?pre_resume_stage, ?pre_restart_stage; try discriminate.
+            ?pre_pause_task, ?pre_resume_stage, ?pre_restart_stage, ?pre_continue_parent; try discriminate.
   intros H. apply pre_run_task in H. destruct H as [Hc [Hp _]]. split; [exact Hc|]. exists s0, t. auto.
 Qed.
 
